@@ -368,6 +368,43 @@ def _work(args: t.Tuple[int, int, int]) -> t.List[t.Any]:
     return [n, out]
 
 
+def _walk_work(args: t.Tuple[int, int, int]) -> t.Tuple[int, t.List[t.Any]]:
+    """Worker: `n` random walks from the initial state (forked: _G is inherited)."""
+    wid, n, seed = args
+    role, cat, k0, walk_len = _G["role"], _G["cat"], _G["k0"], _G["walk_len"]
+    rnd = random.Random(seed * 104729 + wid * 31 + 5)
+    steps = 0
+    found: t.List[t.Any] = []
+    for _w in range(n):
+        if C.too_many_hangs():
+            break
+        s = new_session(role)
+        k = k0
+        in_closed = 0
+        for _ in range(walk_len):
+            if k not in cat:
+                break
+            a, b, c = cat[k]
+            u = rnd.random()
+            pool = a if (u < 0.62 and a) else b if (u < 0.92 and b) else c if c else (a or b)
+            if not pool:
+                break
+            e = rnd.choice(pool)
+            if e["src"]["st"] == "CLOSED":
+                in_closed += 1
+                if in_closed > 3:
+                    break
+            obs = do_call(s, role, e["call"], rnd)
+            steps += 1
+            d = compare(role, e, obs)
+            if d:
+                for prop, sig, text in d:
+                    found.append((sig, text + " [random walk]", {"role": role, "edge": e, "observed": {k2: v for k2, v in obs.items() if k2 != "raw_emit"}, "private": diag(s)}, prop))
+                break
+            k = skey(e["dst"])
+    return steps, found[:200]
+
+
 def replay_graph(rep: C.Report, role: str, edges: t.List[t.Dict[str, t.Any]], seed: int, walks: int, walk_len: int) -> None:
     rnd = random.Random(seed)
     bysrc: t.Dict[str, t.List[t.Any]] = collections.OrderedDict()
@@ -406,38 +443,24 @@ def replay_graph(rep: C.Report, role: str, edges: t.List[t.Dict[str, t.Any]], se
         for e, obs, diffs, dg in r[1]:
             for prop, sig, text in diffs:
                 rep.violation(sig, text, {"role": role, "edge": e, "observed": obs, "private": dg}, prop=prop)
-    # phase 3: seeded random walks, biased away from the absorbing CLOSED state
+    # phase 3: seeded random walks, biased away from the absorbing CLOSED state (in forked workers)
     cat: t.Dict[str, t.Tuple[t.List[t.Any], t.List[t.Any], t.List[t.Any]]] = {}
     for k, es in bysrc.items():
         cat[k] = ([e for e in es if e["dst"]["st"] != "CLOSED" and e["call"]["res"] == "ok"],
                   [e for e in es if e["dst"]["st"] != "CLOSED" and e["call"]["res"] != "ok"],
                   [e for e in es if e["dst"]["st"] == "CLOSED"])
-    steps = 0
-    for w in range(walks):
-        s = new_session(role)
-        k = k0
-        in_closed = 0
-        for _ in range(walk_len):
-            if k not in cat:
-                break
-            a, b, c = cat[k]
-            u = rnd.random()
-            pool = a if (u < 0.62 and a) else b if (u < 0.92 and b) else c if c else (a or b)
-            if not pool:
-                break
-            e = rnd.choice(pool)
-            if e["src"]["st"] == "CLOSED":
-                in_closed += 1
-                if in_closed > 3:
-                    break
-            obs = do_call(s, role, e["call"], rnd)
-            steps += 1
-            d = compare(role, e, obs)
-            if d:
-                for prop, sig, text in d:
-                    rep.violation(sig, text + " [random walk]", {"role": role, "edge": e, "observed": {k2: v for k2, v in obs.items() if k2 != "raw_emit"}, "private": diag(s)}, prop=prop)
-                break
-            k = skey(e["dst"])
+    _G.update(cat=cat, k0=k0, walk_len=walk_len)
+    nww = min(C.NCPU, max(1, walks // 100))
+    share = [(w, walks // nww + (1 if w < walks % nww else 0), seed) for w in range(nww)]
+    if nww > 1:
+        with mp.get_context("fork").Pool(nww) as pool:
+            wres = pool.map(_walk_work, share)
+    else:
+        wres = [_walk_work(share[0])]
+    steps = sum(r[0] for r in wres)
+    for r in wres:
+        for sig, text, case, prop in r[1]:
+            rep.violation(sig, text, case, prop=prop)
     rep.traces += done + steps
     for e in edges:
         rep.evaluations += 1
